@@ -76,6 +76,8 @@ def run(ctx):
             ov = cartio.sparse_overrides(rnd, 30 if ctx.quick else 120)
             if k % 3 == 0:
                 ov.update(cartio.repeated_row_overrides(rnd, pat))
+            elif k % 3 == 1:
+                ov.update(cartio.default_row_overrides(rnd))
         lpat = (rnd.randrange(256), rnd.randrange(256)) if k % 3 else None
         lov = {rnd.randrange(0x2000): rnd.randrange(256) for _ in range(8)} if lpat else {}
         version = rnd.choice((0, 5, 8, 16, 29, 33, 41, 255, 4096))
